@@ -708,7 +708,8 @@ theorem phys_machine_source_ops : memOps = [
   ("janet_parser_flush", ["argcount=0", "bufcount=0", "statecount=1", "states[0]"]),
   ("janet_parser_error", ["status", "flush"]),
   ("janet_parser_produce", ["args[0]", "for(i=1;i<argcount;i++)args[i-1]=args[i]", "argcount--", "states[0]"]),
-  ("janet_parser_produce_wrapped", ["args[0]", "for(i=1;i<argcount;i++)args[i-1]=args[i]", "argcount--", "states[0]"])] := by decide
+  ("janet_parser_produce_wrapped", ["args[0]", "for(i=1;i<argcount;i++)args[i-1]=args[i]", "argcount--", "states[0]"]),
+  ("parser_state_delimiters", ["push_buf", "push_buf", "push_buf", "push_buf", "push_buf", "bufcount=saved", "states+stack_index"])] := by decide
 
 /-- the shape facts behind `p->buf[0]`: along any such history every frame below the top is a `root` frame and a token frame on top
     has a non-empty scratch buffer -/
